@@ -11,7 +11,7 @@ events
   act "set:<dotted target>"          an assignment to an attribute or subscript of an object, or to a local variable
   act "T:<test>" / "F:<test>"        the branch taken (head of the `if` / `while` alternatives)
   act "acquired:<ctx>" / "release:<ctx>"   (async) with - entered / left; `aw "acquire:<ctx>"` before an `async with`
-  aw  "<dotted callee>"              an await
+  aw  "<dotted callee>"              an await; when the first argument is a literal `GeckoSpaEvent.X` it is appended: "handler(GeckoSpaEvent.X)"
 Logging calls are dropped.  `assert` contributes the events of its test only (assertions are taken not to fail).
 Short-circuit operators and conditional expressions become alternatives (sound over-approximation of what is evaluated).
 """
@@ -78,6 +78,13 @@ def name_of(node):
     return type(node).__name__
 
 
+def event_arg(call):
+    """`handler(GeckoSpaEvent.X, ...)`: which event is announced is part of the name (the only data kept: it is a literal)"""
+    if call.args and (_dotted(call.args[0]) or "").startswith("GeckoSpaEvent."):
+        return "(" + _dotted(call.args[0]) + ")"
+    return ""
+
+
 def expr(node):
     """events of evaluating an expression, in evaluation order"""
     if node is None:
@@ -86,7 +93,7 @@ def expr(node):
         v = node.value
         if isinstance(v, ast.Call):
             return seq(expr(v.func) if not isinstance(v.func, (ast.Name, ast.Attribute)) else attr_reads(v.func, callee=True),
-                       *[expr(a) for a in v.args], *[expr(k.value) for k in v.keywords], aw(name_of(v.func)))
+                       *[expr(a) for a in v.args], *[expr(k.value) for k in v.keywords], aw(name_of(v.func) + event_arg(v)))
         return seq(expr(v), aw(name_of(v)))
     if isinstance(node, ast.Call):
         callee = name_of(node.func)
@@ -267,9 +274,46 @@ def coroutines():
     return out
 
 
+# synchronous methods of LONG-LIVED objects (handlers, structures, accessors) whose skeleton is generated as well: what they write
+# into `self` is the state that outlives a call - the place where stale caches and remembered replies live
+STATE_FUNCTIONS = [
+    ("driver/protocol/packet.py", "GeckoPacketProtocolHandler.handle"),
+    ("driver/protocol/statusblock.py", "GeckoStatusBlockProtocolHandler.handle"),
+    ("driver/protocol/statusblock.py", "GeckoPartialStatusBlockProtocolHandler.handle"),
+    ("driver/protocol/hello.py", "GeckoHelloProtocolHandler.handle"),
+    ("driver/spastruct.py", "GeckoStructure.replace_status_block_segment"),
+    ("driver/spastruct.py", "GeckoStructure._on_status_block_received"),
+    ("driver/async_spastruct.py", "GeckoAsyncStructure.replace_status_block_segment"),
+    ("driver/accessor.py", "GeckoStructAccessor.status_block_changed"),
+    ("driver/accessor.py", "GeckoStructAccessor._get_value"),
+    ("driver/accessor.py", "GeckoTempStructAccessor._get_value"),
+    ("spa.py", "GeckoSpa._on_partial_status_update"),
+    ("locator.py", "GeckoLocator._on_discovered"),
+    ("automation/async_facade.py", "GeckoAsyncFacade._on_config_device_change"),
+    ("async_tasks.py", "AsyncTasks.add_task"),
+    ("async_tasks.py", "AsyncTasks.cancel_key_tasks"),
+]
+
+
+def state_functions():
+    from py2lean import find_function
+    out = []
+    for rel, qual in STATE_FUNCTIONS:
+        node = find_function(T.parse(rel), qual)
+        out.append((rel, qual, node))
+    return out
+
+
 def gen_skeletons():
     defs, index = [], []
     seen = set()
+    sindex = []
+    for rel, qual, node in state_functions():
+        sk = block(node.body)
+        nm = lean_name(rel, qual)
+        seen.add(nm)
+        defs.append(f"/-- (synchronous) `{rel}` `{qual}` (line {node.lineno}) -/\ndef {nm} : Sk :=\n  {lean(sk)}\n")
+        sindex.append(f"  ({q(rel + ':' + qual)}, {nm})")
     for rel, qual, node in coroutines():
         sk = block(node.body)
         nm = lean_name(rel, qual)
@@ -282,6 +326,8 @@ def gen_skeletons():
     return "\n".join([T.HEADER, "import GeckoModel.Model.Coop\n", "namespace GeckoModel.Generated.Skeletons", "open GeckoModel.Coop\n"]
                      + defs + ["/-- every coroutine of the source tree (outside the pack tables) -/",
                                "def all : List (String × Sk) := [\n" + ",\n".join(index) + "]\n",
+                               "/-- selected synchronous methods of long-lived objects -/",
+                               "def stateful : List (String × Sk) := [\n" + ",\n".join(sindex) + "]\n",
                                "end GeckoModel.Generated.Skeletons\n"])
 
 
